@@ -162,9 +162,13 @@ MapWeights(kind, L, a) ==
     [] kind = "wedge" -> <<(L - a[1] - a[2]) * (L - a[3]), a[1] * (L - a[3]), a[2] * (L - a[3]),
                            (L - a[1] - a[2]) * a[3], a[1] * a[3], a[2] * a[3]>>
 \* numerator (over L^deg) of the image of reference point a in cell k
+\* coordinates of local vertex v of cell k: column t[k][v] of the vertex table, or -- on meshes with a discontinuous
+\* geometry (Mesh*1DG / periodic: the topology t is identified, every cell keeps its own corner coordinates) -- loc.pc
+HasCellP(e) == "pc" \in DOMAIN e.loc
+CellP(e, k, v) == IF HasCellP(e) THEN e.loc.pc[k][v] ELSE e.loc.p[e.t[k][v]]
 MapNum(e, k, a) ==
   LET w == MapWeights(e.kind, e.loc.L, a) IN
-  [c \in 1..Dim(e.kind) |-> SumSeq([v \in 1..Len(w) |-> w[v] * e.loc.p[e.t[k][v]][c]])]
+  [c \in 1..Dim(e.kind) |-> SumSeq([v \in 1..Len(w) |-> w[v] * CellP(e, k, v)[c]])]
 LocTol == FxTol(40)
 LocDen(e) == e.loc.L ^ MapDeg(e.kind)
 LocMatches(e, d, num) ==
@@ -173,7 +177,10 @@ LocMatches(e, d, num) ==
        /\ \A c \in DOMAIN num : FxNear(e.loc.glob[d + 1][c], FxRat(num[c], LocDen(e)), LocTol)
 LocWellFormed(e) ==
   /\ Len(e.loc.ref) = NBfun(e.kind, e.sig)
-  /\ Len(e.loc.p) = e.nv /\ \A v \in 1..e.nv : Len(e.loc.p[v]) = Dim(e.kind)
+  /\ IF HasCellP(e)
+     THEN Len(e.loc.pc) = NTc(e) /\ \A k \in 1..NTc(e) :
+             Len(e.loc.pc[k]) = NNodes(e.kind) /\ \A v \in 1..NNodes(e.kind) : Len(e.loc.pc[k][v]) = Dim(e.kind)
+     ELSE Len(e.loc.p) = e.nv /\ \A v \in 1..e.nv : Len(e.loc.p[v]) = Dim(e.kind)
   /\ Len(e.loc.glob) = e.N
   /\ \A r \in DOMAIN e.loc.ref : e.loc.ref[r] = <<>> \/ Len(e.loc.ref[r]) = Dim(e.kind)
 \* the location of every DOF is the mapped reference location of a local basis function that carries this number
@@ -276,10 +283,24 @@ NumberClausesBase(e) ==
           ELSE (IF base.Contiguous /\ e.N <= 100000
                 THEN base @@ [DofLocsCoherent |-> DofLocsCoherent(e)] ELSE base)
                @@ [LocOnEntity |-> LocOnEntity(e)]
+\* ---- periodic meshes: e.per = [pc, period]; pc[k][v] the coordinates of local vertex v of cell k, period[c] the
+\* period in coordinate c (0 = not periodic).  Two (cell, local vertex) slots carry the same vertex number iff their
+\* coordinates agree modulo the periods: the identified topology is the one of the periodic domain.
+Congruent(a, b, per) == \A c \in DOMAIN a : IF per[c] = 0 THEN a[c] = b[c] ELSE Abs(a[c] - b[c]) % per[c] = 0
+PeriodicIdentification(e) ==
+  /\ Len(e.per.pc) = NTc(e)
+  /\ \A k \in 1..NTc(e) : Len(e.per.pc[k]) = NNodes(e.kind)
+  /\ LET slots == {<<k, v>> : k \in 1..NTc(e), v \in 1..NNodes(e.kind)} IN
+     \A s1, s2 \in slots :
+        (e.t[s1[1]][s1[2]] = e.t[s2[1]][s2[2]])
+          <=> Congruent(e.per.pc[s1[1]][s1[2]], e.per.pc[s2[1]][s2[2]], e.per.period)
+
 NumberClauses(e) ==
-  LET base == NumberClausesBase(e) IN
-  IF base.WellFormed /\ "dec" \in DOMAIN e /\ e.dec.sigs # <<>>
-  THEN base @@ [CompositeDecodeOK |-> CompositeDecodeOK(e)] ELSE base
+  LET base == NumberClausesBase(e)
+      b2 == IF base.WellFormed /\ "dec" \in DOMAIN e /\ e.dec.sigs # <<>>
+            THEN base @@ [CompositeDecodeOK |-> CompositeDecodeOK(e)] ELSE base
+  IN IF base.WellFormed /\ "per" \in DOMAIN e
+     THEN b2 @@ [PeriodicIdentification |-> PeriodicIdentification(e)] ELSE b2
 
 \* the transcription reproduces what the code reported (model drift indicator, not a verdict)
 ImplAgrees(e) ==
